@@ -232,6 +232,7 @@ def make_keys(kind, n):
     p = PAT[n]; ints = np.array([5 + k for k in p], dtype=np.int64)
     second = np.array(["x", "x", "y", "y"][:n], dtype=object)
     if kind == "np_int": return ints
+    if kind == "np_int_sorted": return np.sort(ints)          # labels first seen in increasing order: no re-sort of the result is needed (results may then be VIEWS of cached per-group arrays)
     if kind == "np_float_null": return np.array([np.nan if i == n - 1 else 1.5 + p[i] for i in range(n)])
     if kind == "np_str": return np.array(["ab"[k] for k in p], dtype=object)
     if kind == "np_bool": return np.array([bool(k) for k in p])
@@ -296,6 +297,9 @@ def _build_ops():
     for r in ("count", "sum", "mean", "min", "max", "var", "std", "first", "last"):
         op(f"GroupBy.{r}", lambda gb, a, r=r: getattr(gb, r)(a["values"], mask=a["mask"]), needs=("values", "mask"))
     op("GroupBy.size", lambda gb, a: gb.size(mask=a["mask"]), needs=("mask",))
+    op("GroupBy.size[all groups]", lambda gb, a: gb.size(mask=a["mask"], observed_only=False), needs=("mask",))
+    op("GroupBy.count[all groups]", lambda gb, a: gb.count(a["values"], mask=a["mask"], observed_only=False), needs=("values", "mask"))
+    op("GroupBy.min[all groups]", lambda gb, a: gb.min(a["values"], mask=a["mask"], observed_only=False), needs=("values", "mask"))
     op("GroupBy.sum[transform]", lambda gb, a: gb.sum(a["values"], mask=a["mask"], transform=True), needs=("values", "mask"))
     op("GroupBy.sum[all groups]", lambda gb, a: gb.sum(a["values"], mask=a["mask"], observed_only=False), needs=("values", "mask"))
     op("GroupBy.agg", lambda gb, a: gb.agg(a["values"], "max", mask=a["mask"]), needs=("values", "mask"))
@@ -393,6 +397,7 @@ def cases(tier, seed):
                gen(("np_int",), VAL_KINDS, ("none", "pd"), (4,)),                                                # every operation x every value container
                gen(("pd_series_named_idx",), ("np_float", "pd_series", "pd_view", "pd_df2") + (VAL_KINDS if big else ()), ("pd",), (4,)),   # ... on keys with a named custom index
                gen(("np_int",), ("np_float", "pl_series"), ("np",), (3,)),
+               gen(("np_int_sorted", "pd_cat"), ("np_float",), ("none", "np"), (4,)),                             # every operation on groupings whose results need no re-sort (sorted first appearance / categorical)
                gen(("np_int", "pd_cat"), ("np_float", "pd_series"), ("pos", "pos_i32", "pos_index"), (4,)),       # positional row filters (operations that do not take positions raise: framed too)
                gen(("pd_cat", "pa_chunked", "np_float_null"), ("np_float",), ("none", "np"), (3,), None if big else REP_OPS)]
     if big: streams.append(gen(KEY_KINDS, VAL_KINDS, ("none", "np"), (4,), HEAVY))
